@@ -266,6 +266,14 @@ def jobs(tier, seed):
     for mode in ('bytes', 'pkts'):
         js.append({'harness': 'port', 'weight': 40, 'opts': {'max_paths': 20000},
                    'cfg': {'rate': 8, 'mode': mode, 'n': m, 'sorts': 'int', 'burst': [0, 1, 1, 0, 1, 1, 1][:m]}})
+    if tier != 'quick':
+        for mode in ('bytes', 'pkts'):
+            js.append({'harness': 'port', 'weight': 300, 'opts': {'max_paths': 40000},
+                       'cfg': {'rate': 8, 'mode': mode, 'n': 6, 'sorts': 'int', 'burst': [0, 0, 1, 0, 0, 1]}})
+        for by in (False, True):
+            cfg = {'n': 5, 'sorts': 'int', 'w': 2, 'rate': 8, 'bytes': by, 'maxp': '1/2'}
+            cfg.update(dict(min_th=100, max_th=300, qlimit=400) if by else dict(min_th=1, max_th=3, qlimit=4))
+            js.append({'harness': 'red', 'cfg': cfg, 'weight': 300, 'opts': {'max_paths': 40000}})
     # an element id that is falsy but present ('' is a string like any other)
     js.append({'harness': 'port', 'weight': 1, 'cfg': {'rate': 8, 'mode': 'none', 'n': 2, 'sorts': 'int', 'burst': [0, 0], 'eid': ''}})
     for rate in (0, 8):
@@ -307,7 +315,7 @@ META = {
     'required_covers': ['nontrivial', 'dropped', 'red-dropped', 'red-accepted', 'monitor-excluded-in-service'],
     'bounds': {'quick': 'n=3 packets per workload (monitor: 2 packets, 2 samples); rates {0,8,64}; qlimit symbolic Int>=1 '
                         'or None; sizes Int>=1, gaps >=0 unbounded; RED thresholds (1,3,4)/(100,300,400), maxp 1/2, w in {1,2}, avg0 symbolic',
-               'thorough': 'n=5 (monitor 3/3, RED 4), w in {1,2,9}, rates {0,8}'},
+               'thorough': 'n=5-6 (monitor 3/3, RED 4-5), w in {1,2,9}, rates {0,8}'},
     'assumptions': ['"waiting to start transmission" is read from the port\'s public store.items immediately before put '
                     '(same-instant arrivals into an idle port count as waiting)',
                     'RED: the averaged quantity is len(store.items) (packet mode) / held bytes (byte mode); u == p left free'],
